@@ -1,4 +1,4 @@
-package props
+package c03
 
 import (
 	"fmt"
@@ -71,9 +71,9 @@ func c03Apply(m *message.Message, op int) bool {
 	case opNack:
 		return m.Nack()
 	case opReadAcked:
-		return isClosed(m.Acked())
+		return vlib.IsClosed(m.Acked())
 	default:
-		return isClosed(m.Nacked())
+		return vlib.IsClosed(m.Nacked())
 	}
 }
 
@@ -88,7 +88,7 @@ func init() {
 		Level:           "exploration",
 		RaceIsViolation: true,
 		Cases: func(tier string) int {
-			return c03SeqCases() + tierN(tier, 160, 3200)
+			return c03SeqCases() + vlib.TierN(tier, 160, 3200)
 		},
 		Rule: "sequential part: every op sequence over {Ack,Nack,Acked?,Nacked?} of length 0..8 (87381 sequences) on 5 message kinds " +
 			"(NewMessage, Copy of unsettled/acked/nacked, zero value), checked step by step against the 3-state model (exhaustive, counter seq_sequences); " +
@@ -113,7 +113,7 @@ func c03Run(e *vlib.Env) vlib.Result {
 func c03Seq(e *vlib.Env) vlib.Result {
 	kind := c03Kinds[e.Idx/c03SeqBlocks]
 	block := e.Idx % c03SeqBlocks
-	res := vlib.Result{Class: "seq/" + kind, NonTrivial: true, Sig: sigOf("seq", kind, block)}
+	res := vlib.Result{Class: "seq/" + kind, NonTrivial: true, Sig: vlib.Sig("seq", kind, block)}
 	done := make(chan struct{})
 	var mu sync.Mutex
 	var failure string
@@ -139,7 +139,7 @@ func c03Seq(e *vlib.Env) vlib.Result {
 					want, next := c03Step(st, op)
 					got := c03Apply(m, op)
 					st = next
-					a, n := isClosed(m.Acked()), isClosed(m.Nacked())
+					a, n := vlib.IsClosed(m.Acked()), vlib.IsClosed(m.Nacked())
 					if got != want || a != (st == 1) || n != (st == 2) {
 						mu.Lock()
 						if failure == "" {
@@ -172,7 +172,7 @@ func c03Seq(e *vlib.Env) vlib.Result {
 		}
 		rec()
 	}()
-	oc, dump := vlib.WaitClosed(done, wd)
+	oc, dump := vlib.WaitClosed(done, vlib.WD)
 	mu.Lock()
 	defer mu.Unlock()
 	res.Events = nops
@@ -274,7 +274,7 @@ func c03Conc(e *vlib.Env) vlib.Result {
 		doneCh := make(chan struct{})
 		go func() { wg.Wait(); close(doneCh) }()
 		close(start)
-		oc, dump := vlib.WaitClosed(doneCh, wd)
+		oc, dump := vlib.WaitClosed(doneCh, vlib.WD)
 		if oc == vlib.Stuck {
 			res.Fail("blocks", "concurrent Ack/Nack history on a %s message never finished (process quiescent)", kind)
 			res.Witness = dump
@@ -296,7 +296,7 @@ func c03Conc(e *vlib.Env) vlib.Result {
 			ops = append(ops, porcupine.Operation{ClientId: g, Input: c03In{op}, Call: int64(call), Output: out, Return: int64(ret)})
 		}
 		res.Events += len(ops)
-		if isClosed(m.Acked()) && isClosed(m.Nacked()) {
+		if vlib.IsClosed(m.Acked()) && vlib.IsClosed(m.Nacked()) {
 			res.Fail("both-closed", "kind=%s: both Acked() and Nacked() are closed after the history %s", kind, c03Describe(ops))
 			return res
 		}
@@ -327,7 +327,7 @@ func c03Conc(e *vlib.Env) vlib.Result {
 		}
 		if hasAck && hasNack && overlap {
 			overlapping++
-			distinct[sigOf(kind, c03Describe(ops))] = true
+			distinct[vlib.Sig(kind, c03Describe(ops))] = true
 		}
 		if sample == nil {
 			sample = map[string]any{"kind": kind, "goroutines": g, "history": c03Describe(ops)}
@@ -342,7 +342,7 @@ func c03Conc(e *vlib.Env) vlib.Result {
 	for k := range distinct {
 		keys = append(keys, k)
 	}
-	res.Sig = sigOf("conc", sortedCopy(keys))
+	res.Sig = vlib.Sig("conc", vlib.SortedStrings(keys))
 	res.Sample = sample
 	return res
 }
